@@ -47,6 +47,18 @@ def gen(tier, seed, shard, nshards):
                     out[order[a]] |= 1 << order[a + 1]
                 yield "chain", {"A": gmat.to_np(out, dtype=float if rep else int), "seeds": list(range(12))}
             c += 1
+    # near-complete DAGs on 35..40 nodes (astronomically many directed walks between far-apart nodes)
+    for pbig in range(35, 41):
+        if pbig % nshards == shard:
+            rng = util.rng_for("C18", seed, "big", pbig)
+            order = [int(v) for v in rng.permutation(pbig)]
+            out = [0] * pbig
+            for a in range(pbig):
+                for b in range(a + 1, pbig):
+                    out[order[a]] |= 1 << order[b]
+            for (a, b) in ((0, pbig - 1), (1, pbig - 2), (0, pbig // 2)):       # a few far-apart pairs left non-adjacent
+                out[order[a]] &= ~(1 << order[b])
+            yield "big", {"A": gmat.to_np(out), "seeds": list(range(8))}
     for k in range(N[tier]["random"]):
         if k % nshards == shard:
             rng = util.rng_for("C18", seed, "r", k)
@@ -77,7 +89,12 @@ def _judge_one(U, op, A, out, k, rs, family, case, rec):
     ctx = {"matrix": A, "count": k, "random_state": rs, "edges": E, "feasible_max": cap}
     rec.count("%s:%s" % (op, "feasible" if feasible else "infeasible"))
     try:
-        R = fn(A, np.int64(k) if (k + E) % 3 == 0 else k, **kw)
+        kk = k
+        if (k + E) % 3 == 0:
+            kk = np.int64(k)
+        elif (k + E) % 3 == 1 and k >= 0:
+            kk = (np.uint64, np.uint8, np.uint16)[(k + p) % 3](k) if k < 250 else np.uint64(k)      # unsigned counts, as A.sum() of an unsigned matrix gives
+        R = fn(A, kk, **kw)
         raised = None
     except ValueError as e:
         R, raised = None, e
@@ -139,7 +156,7 @@ def judge(family, case, rec):
         out = G.dag_from_code3(case["p"], case["code3"])
         A = gmat.to_np(out, dtype=int if case["code3"] % 2 else float)
         seeds = N[rec.tier]["seeds"]
-    elif family == "chain":
+    elif family in ("chain", "big"):
         A = case["A"]
         out = gmat.masks(A)
         seeds = tuple(case["seeds"])
@@ -152,8 +169,10 @@ def judge(family, case, rec):
     E = G.n_edges(out)
     full = p * (p - 1) // 2
     for op, cap in (("remove", E), ("add", full - E)):
-        ks = range(0, cap + 2) if family == "dag" else (sorted(set([0, cap, cap + 1, max(0, cap // 2), 1])) if family != "chain" else
+        ks = range(0, cap + 2) if family == "dag" else (sorted(set([0, cap, cap + 1, max(0, cap // 2), 1])) if family not in ("chain", "big") else
                                                         sorted(set([1, 2, 3, cap // 2, cap])) if op == "add" else [1])
+        if family == "big":
+            ks = [1, cap] if op == "add" else [2]
         for k in ks:
             for rs in seeds:
                 rec.case(family, {"graph": case, "op": op, "count": k, "rs": rs}, bool(k > 0 and (E >= 1 or p >= 3)),
